@@ -9,6 +9,21 @@ use std::rc::Rc;
 
 use crate::rng::{Fnv, Rng};
 
+/// Raw OS error codes injected as terminal failures (Linux): EIO, ENOSPC, EACCES, EPIPE,
+/// ECONNRESET, ETIMEDOUT, EAGAIN.
+pub const OS_CODES: [i32; 7] = [5, 28, 13, 32, 104, 110, 11];
+
+/// Fault selector 0..14 -> (kind, raw OS code).
+pub fn fault_error(idx: usize) -> (ErrorKind, Option<i32>) {
+    let idx = idx % (ERR_KINDS.len() + OS_CODES.len());
+    if idx < ERR_KINDS.len() {
+        (ERR_KINDS[idx], None)
+    } else {
+        let code = OS_CODES[idx - ERR_KINDS.len()];
+        (io::Error::from_raw_os_error(code).kind(), Some(code))
+    }
+}
+
 pub const ERR_KINDS: [ErrorKind; 7] = [
     ErrorKind::Other,
     ErrorKind::BrokenPipe,
@@ -68,6 +83,9 @@ pub struct SourceCfg {
     pub cycle: bool,
     /// The source delivers `data[..k]` and then fails with this kind (terminal).
     pub fail_at: Option<(usize, ErrorKind)>,
+    /// If set, the terminal error is `io::Error::from_raw_os_error(code)` (what a real file, pipe
+    /// or socket produces: EIO, ENOSPC, ...); `fail_at.1` then holds that error's kind.
+    pub fail_os: Option<i32>,
     /// Scribble: after delivering n bytes the source fills the rest of the offered slice with this
     /// byte (a `Read` may do that; the caller must not look at it). Makes over-reads observable.
     pub poison: Option<u8>,
@@ -95,6 +113,7 @@ impl SourceCfg {
             steps: vec![],
             cycle: false,
             fail_at: None,
+            fail_os: None,
             poison: None,
         }
     }
@@ -103,6 +122,7 @@ impl SourceCfg {
             steps: vec![Step::Deliver(1)],
             cycle: true,
             fail_at: None,
+            fail_os: None,
             poison: None,
         }
     }
@@ -154,9 +174,10 @@ pub struct SrcState {
 
 impl SrcState {
     pub fn fail_msg(&self) -> String {
-        match self.cfg.fail_at {
-            Some((k, _)) => format!("simulated source failure at offset {k}"),
-            None => String::new(),
+        match (self.cfg.fail_at, self.cfg.fail_os) {
+            (Some(_), Some(code)) => io::Error::from_raw_os_error(code).to_string(),
+            (Some((k, _)), None) => format!("simulated source failure at offset {k}"),
+            _ => String::new(),
         }
     }
     /// Number of successful (data-delivering) calls since log index `from`.
@@ -284,7 +305,10 @@ impl Read for SimSource {
                                 st.c.errors += 1;
                                 res = CallRes::Err;
                                 let msg = st.fail_msg();
-                                ret = Err(io::Error::new(kind, msg));
+                                ret = Err(match st.cfg.fail_os {
+                                    Some(code) => io::Error::from_raw_os_error(code),
+                                    None => io::Error::new(kind, msg),
+                                });
                             }
                             _ => {
                                 st.ended = true;
@@ -450,6 +474,7 @@ pub fn gen_plan(rng: &mut Rng, len: usize, cuts: &[usize], interrupts: u8) -> So
         steps,
         cycle,
         fail_at: None,
+        fail_os: None,
         poison: None,
     }
 }
@@ -484,9 +509,10 @@ pub fn step_from_str(s: &str) -> Option<Step> {
 impl SourceCfg {
     pub fn encode(&self) -> String {
         let steps: Vec<String> = self.steps.iter().map(step_to_string).collect();
-        let fail = match self.fail_at {
-            Some((k, kind)) => format!("{}:{}", k, kind_name(kind)),
-            None => "-".into(),
+        let fail = match (self.fail_at, self.fail_os) {
+            (Some((k, _)), Some(code)) => format!("{k}:os{code}"),
+            (Some((k, kind)), None) => format!("{}:{}", k, kind_name(kind)),
+            _ => "-".into(),
         };
         format!(
             "{};{};{}",
@@ -499,11 +525,18 @@ impl SourceCfg {
         let mut it = s.splitn(3, ';');
         let cycle = it.next()? == "cycle";
         let fail = it.next()?;
+        let mut fail_os = None;
         let fail_at = if fail == "-" {
             None
         } else {
             let (k, kind) = fail.split_once(':')?;
-            Some((k.parse().ok()?, kind_from_name(kind)?))
+            if let Some(code) = kind.strip_prefix("os") {
+                let code: i32 = code.parse().ok()?;
+                fail_os = Some(code);
+                Some((k.parse().ok()?, io::Error::from_raw_os_error(code).kind()))
+            } else {
+                Some((k.parse().ok()?, kind_from_name(kind)?))
+            }
         };
         let st = it.next()?;
         let steps = if st.is_empty() {
@@ -515,6 +548,7 @@ impl SourceCfg {
             steps,
             cycle,
             fail_at,
+            fail_os,
             poison: None,
         })
     }
